@@ -4,6 +4,8 @@ import (
 	"encoding/json"
 	"errors"
 	"fmt"
+	"github.com/Trendyol/go-dcp/helpers"
+	"github.com/Trendyol/go-dcp/membership"
 	"strings"
 	"time"
 
@@ -56,6 +58,7 @@ func init() {
 				{Scenario: "c19_hc", Params: mustJSON(HCParams{Mode: "stop", SlowFail: true}), Bound: b, Shards: 8, Note: "failing pings take 1.5 s (longer than the retry wait): Stop() while such a ping is in flight"},
 				{Scenario: "c19_hc", Params: mustJSON(HCParams{Mode: "calls"}), Bound: 0},
 				{Scenario: "c13_shutdown", Params: mustJSON(ShutdownParams{Case: "idle", Checkpoint: "auto", Mitigation: true, Health: true, Membership: "static", MaxPoint: 1}), Bound: 0, Note: "the checker as wired into the client: Close() of the client stops it (API disabled, the default of the harness): no ping afterwards, no late fail-stop"},
+				{Scenario: "c13_shutdown", Params: mustJSON(ShutdownParams{Case: "duringstart", Checkpoint: "auto", Mitigation: true, Health: true, Membership: "static", MaxPoint: 120}), Bound: 0, Shards: 4, Note: "Close() from another goroutine at every point of Start() before readiness: once the client has shut down no ping is issued (a Stop() that precedes the checker's Start() must not disarm the later Stop())"},
 				{Scenario: "c13_shutdown", Params: mustJSON(ShutdownParams{Case: "pingfail", Checkpoint: "auto", Health: true, Membership: "static", MaxPoint: 40}), Bound: 0, Shards: 4, Note: "Close() of the client at every point of a failing health-check round"},
 				{Scenario: "c19_wired", Params: mustJSON(struct{}{}), Bound: 0, Note: "through the real newDcp/Start() with the HTTP API disabled: five failed pings terminate the process; no ping when the health check is switched off"},
 				{Scenario: "c19_endpoints", Params: mustJSON(struct{}{}), Bound: 0, Shards: 2, Note: "what a failed ping is: per-service endpoint lists of a multi-node cluster with some nodes down"},
@@ -398,19 +401,44 @@ func init() {
 		return &vrt.Scenario{Name: "c19_wired", FreeChoices: true, NoTimerAlt: true, MaxSteps: 2_000_000, Main: func() {
 			resetGlobals()
 			health := vrt.Choose(2, true, "health-check-enabled") == 1
+			// what the client has been through before the cluster stops answering: nothing / a rebalance (a
+			// membership notification; with dynamic membership a new numbering) / a commit
+			before := vrt.Choose(4, true, "lifecycle-before-the-failures")
 			o := DcpOpts{HealthCheck: health}
 			o.Vbs = 2
 			o.CheckpointType = "manual"
+			o.RebalanceDelay = 2 * time.Second
+			if before == 2 {
+				o.MembershipType = "dynamic"
+			}
 			c := NewCluster(&o.EnvOpts)
 			e := NewDcpEnv(c, o)
 			if e.Err != nil {
 				vrt.Failf("newDcp: %v", e.Err)
 				return
 			}
+			if before == 2 {
+				vrt.GoNamed("first-membership", func() {
+					vrt.Sleep(1)
+					e.bus().Publish(helpers.MembershipChangedBusEventName, &membership.Model{MemberNumber: 1, TotalMembers: 1})
+				})
+			}
 			e.Start()
 			vrt.Quiesce()
 			c.WaitIdle()
-			vrt.SetOutcome(fmt.Sprintf("health check enabled=%v api disabled=%v", health, e.Cfg.API.Disabled))
+			switch before {
+			case 1:
+				e.bus().Publish(helpers.MembershipChangedBusEventName, &membership.Model{MemberNumber: 1, TotalMembers: 1})
+				vrt.Sleep(o.RebalanceDelay + 3*time.Second)
+			case 2:
+				e.bus().Publish(helpers.MembershipChangedBusEventName, &membership.Model{MemberNumber: 1, TotalMembers: 2})
+				vrt.Sleep(3 * time.Second)
+			case 3:
+				e.D.Commit()
+			}
+			vrt.Quiesce()
+			c.WaitIdle()
+			vrt.SetOutcome(fmt.Sprintf("health check enabled=%v api disabled=%v before=%s", health, e.Cfg.API.Disabled, []string{"nothing", "rebalance(static)", "rebalance(dynamic, 1/2)", "commit"}[before]))
 			n := 0
 			c.Fault = func(r *gocbcore.SimRequest) gocbcore.SimAnswer {
 				if r.Kind == "ping" {
